@@ -12,6 +12,7 @@ package sftp
 //            the same harness, no schedule involved)
 
 import (
+	"bytes"
 	"encoding/binary"
 	"errors"
 	"fmt"
@@ -492,6 +493,15 @@ func c08DecodeOne(r *vfRun) {
 	}
 	// the filexfer packets that keep their Data slice for reuse: decoding one body after another into the same packet
 	// must give what decoding into a fresh one gives (lengths that shrink and grow within the old capacity)
+	if m := ""; sc.Seed%40 == 0 && func() bool { m = c08EveryLength(sc.Seed); return m != "" }() {
+		sig := "every-length"
+		if containsPanic(m) {
+			r.fail("C08/panic", sig, "%s", m)
+		} else {
+			r.fail("C08/short-or-wrong-frame", sig, "%s", m)
+		}
+		return
+	}
 	if m := c08Reuse(sc.Seed); m != "" {
 		r.fail("C08/short-packet-delivered", "reuse", "%s", m)
 		return
@@ -525,6 +535,48 @@ func c08Reuse(seed uint64) (msg string) {
 		wbody = append(wbody, body...)
 		if err := wp.UnmarshalPacketBody(sshfx.NewBuffer(wbody)); err != nil || string(wp.Data) != string(data) || wp.Handle != "h" || wp.Offset != uint64(k) {
 			return fmt.Sprintf("WritePacket decoded into a reused packet (decode number %d, %d bytes): got %d bytes, handle %q offset %d, err %v", k, n, len(wp.Data), wp.Handle, wp.Offset, err)
+		}
+		// ... and every truncation of a body that declares fewer bytes than the reused packet can already hold: the
+		// declared length exceeds what is there, which is an error whatever the packet held before
+		if k >= 1 && n >= 2 {
+			for cut := 4; cut < len(body); cut++ {
+				var dp2 sshfx.DataPacket
+				dp2.Data = make([]byte, 0, 256)
+				dp2.UnmarshalPacketBody(sshfx.NewBuffer(append(binary.BigEndian.AppendUint32(nil, 200), vfFill(seed^77, 0, 200)...)))
+				if err := dp2.UnmarshalPacketBody(sshfx.NewBuffer(append([]byte(nil), body[:cut]...))); err == nil {
+					return fmt.Sprintf("DataPacket: a body that declares %d data bytes but carries %d was decoded into a reused packet without an error (got %d bytes % x)", n, cut-4, len(dp2.Data), vfHead(dp2.Data))
+				}
+			}
+		}
+	}
+	return ""
+}
+
+// c08EveryLength: a well-formed frame of every declared length 1..1100 through recvPacket (allocator off and on): the
+// packet comes back whole, or an error - never a panic, never short.
+func c08EveryLength(seed uint64) (msg string) {
+	L := 0
+	defer func() {
+		if x := recover(); x != nil {
+			msg = fmt.Sprintf("recvPacket panicked on a well-formed frame of declared length %d: %v", L, x)
+		}
+	}()
+	for _, withAlloc := range []bool{false, true} {
+		var a *allocator
+		if withAlloc {
+			a = newAllocator()
+		}
+		for L = 1; L <= 1100; L++ {
+			body := vfFill(seed^uint64(L), 0, L)
+			body[0] = 200 // some type byte
+			frame := append(binary.BigEndian.AppendUint32(nil, uint32(L)), body...)
+			typ, data, err := recvPacket(bytes.NewReader(frame), a, uint32(L))
+			if err != nil || typ != 200 || !bytes.Equal(data, body[1:]) {
+				return fmt.Sprintf("recvPacket (allocator %v) on a well-formed frame of declared length %d: type %d, %d body bytes, err %v", withAlloc, L, typ, len(data), err)
+			}
+			if a != nil {
+				a.ReleasePages(uint32(L))
+			}
 		}
 	}
 	return ""
